@@ -219,6 +219,13 @@ def _stmt(st: ast.stmt, p: Path) -> list[Path]:
         if not covered:
             out.append(p.fork())
         return out
+    if isinstance(st, ast.Return) and isinstance(st.value, ast.IfExp):
+        # `return a if c else b`  ==  `if c: return a` / `return b`
+        out = []
+        for pol, v in ((True, st.value.body), (False, st.value.orelse)):
+            b = _branch(p, st.value.test, pol)
+            out.extend(_stmt(ast.copy_location(ast.Return(value=v), st), b))
+        return out
     q = p.fork()
     if isinstance(st, ast.Return):
         q.add(st)
